@@ -347,3 +347,5 @@ import props_c09
 import props_c10
 props_c09.register(_sys.modules[__name__])
 props_c10.register(_sys.modules[__name__])
+import props_struct
+props_struct.register(_sys.modules[__name__])
